@@ -120,7 +120,34 @@ class Env:
             out["rt"] = "raised " + exc_name(e)
         if self.api == "ts":
             out["valid"] = validity_problems(obj.dump_tables())
+        wf = wf_problems(c)
+        if wf:
+            out["wf"] = wf
         return out
+
+
+def wf_problems(c):
+    """Table invariant on a canonical form: every column of a table has num_rows entries, every
+    offset column starts at 0, is non-decreasing and ends at the length of its data column."""
+    if "undecodable-text" in c:
+        return []
+    P = []
+    for name in c05.TABLE_ORDER:
+        fixed, ragged, _ = c05.TABLES[name]
+        n = len(c[name + "/" + ragged[0][0] + "_offset"]) - 1
+        for col, dt in fixed:
+            if len(c[name + "/" + col]) != 2 * c05.WIDTH[dt] * n:
+                P.append("%s/%s has %d bytes for %d rows" % (name, col, len(c[name + "/" + col]) // 2, n))
+        for col, dt in ragged:
+            offs = c[name + "/" + col + "_offset"]
+            if len(offs) != n + 1 or offs[0] != 0 or any(a > b for a, b in zip(offs, offs[1:])) or \
+                    offs[-1] * 2 * c05.WIDTH[dt] != len(c[name + "/" + col]):
+                P.append("%s/%s offsets %s for %d data bytes" % (name, col, offs[:6], len(c[name + "/" + col]) // 2))
+    if c["indexes"] is not None:
+        ne = len(c["edges/left"]) // 16
+        if any(len(x) != 8 * ne for x in c["indexes"]):
+            P.append("index length != number of edges")
+    return P
 
 
 def is_default(path, v, c, before=None):
@@ -352,6 +379,8 @@ def judge_structural(edit_classes, outcome, before, after, layout, skips=(False,
     if not explained:
         out.append(("unexplained-content-change", "altered %s; what loaded differs from the original beyond defaulted optional columns: %s"
                     % (sorted(edit_classes, key=str), outcome["loaded"])))
+    if outcome.get("wf"):
+        out.append(("loaded-not-well-formed", "what loaded violates the table invariant: %s" % (outcome["wf"],)))
     if outcome.get("rt"):
         out.append(("loaded-not-roundtrip", "what loaded does not round-trip: %s" % (outcome["rt"],)))
     if outcome.get("valid"):
@@ -458,7 +487,7 @@ class Truncate(CorruptFamily):
     def generate(self, rng, tier):
         n_any, n_valid = (4, 2) if tier == "quick" else (40, 16)
         for desc, valid in base_cases(rng, n_any, n_valid, tiny_p=0.7):
-            yield {"desc": desc, "env": pick_env(rng, valid), "step": 1}
+            yield {"desc": desc, "env": pick_env(rng, valid), "step": 1, "coq_stride": 7 if tier == "quick" else 1}
 
     def observe(self, case):
         with Scratch() as tmp:
@@ -510,12 +539,21 @@ class Truncate(CorruptFamily):
         if len(fb) > 9000:
             return None
         step = case.get("step", 1)
-        # model verdict for every observed prefix length; a prefix of the 2nd object on a stream
-        # is the same reader started at the object's first byte.
-        exp = "[" + "; ".join("(%d%%nat, %s)" % (k, vcode(c, e["api"])) for k, c in obs["codes"]) + "]"
-        return ("verdicts_rle_eqb (map (fun n => load_verdict %s %s (firstn n %s)) (seq_step %d %d)) %s"
-                % (cb(e["skip_tables"]), cb(e["skip_ref"]), "f", step, obs["ns"], exp)).join(
-            ["(let f := %s in " % clist(fb), ")"])
+        codes = unrle(obs["codes"])
+        # the model is evaluated on: every prefix of the first 200 and the last 300 bytes, every
+        # boundary of the 64-byte header/descriptor grid +-1, and a stride over the rest
+        # (every prefix in the thorough tier); a prefix of the 2nd object on a stream is the same
+        # reader started at the object's first byte.
+        stride = case.get("coq_stride", 1)
+        keep = []
+        for k, c in enumerate(codes):
+            n = k * step
+            if c in ("hang", "adapter"):
+                continue
+            if n < 200 or n >= len(fb) - 300 or n % 64 in (0, 1, 63) or n % stride == 0 or c in ("crash", "loaded"):
+                keep.append("(%d, %s)" % (n, vcode(c, e["api"])))
+        return ("(let f := %s in forallb (fun e : Z * Z => verdict_agrees (load_verdict %s %s (firstn (Z.to_nat (fst e)) f)) (snd e)) [%s])"
+                % (clist(fb), cb(e["skip_tables"]), cb(e["skip_ref"]), "; ".join(keep)))
 
 
 def cb(b):
@@ -557,7 +595,7 @@ class Subst(CorruptFamily):
         n_any, n_valid = (2, 1) if tier == "quick" else (24, 8)
         for desc, valid in base_cases(rng, n_any, n_valid, tiny_p=0.7):
             yield {"desc": desc, "env": pick_env(rng, valid), "vals": [rng.choice([1, 2, 0x80, 0xFF, 0x40, 0x20]), 0x80 if rng.random() < 0.5 else 0xFF, rng.randrange(1, 256)],
-                   "stride": 1, "coq_stride": 12 if tier == "quick" else 6}
+                   "stride": 1, "coq_stride": 16 if tier == "quick" else 6}
 
     def edits(self, case, base):
         lay = Layout(base)
@@ -634,10 +672,10 @@ class Multi(CorruptFamily):
     name = "multi"
 
     def generate(self, rng, tier):
-        n_any, n_valid = (7, 3) if tier == "quick" else (120, 40)
+        n_any, n_valid = (6, 2) if tier == "quick" else (120, 40)
         for desc, valid in base_cases(rng, n_any, n_valid, tiny_p=0.6):
             yield {"desc": desc, "env": pick_env(rng, valid), "seed": rng.randrange(2 ** 30),
-                   "n_random": 150 if tier == "quick" else 400}
+                   "n_random": 100 if tier == "quick" else 400}
 
     def edits(self, case, base):
         """-> (layout, [ [ (pos, bytes) ... ] ... ]) : each edit is a list of (offset, replacement)."""
@@ -843,7 +881,7 @@ class Data(CorruptFamily):
             for c in codes:
                 hist[c] = hist.get(c, 0) + 1
             prob = [[k, o] for k, o in enumerate(res)
-                    if not isinstance(o, str) and (o.get("rt") or o.get("valid") or "loaded" not in o)]
+                    if not isinstance(o, str) and (o.get("rt") or o.get("valid") or o.get("wf") or "loaded" not in o)]
             return {"size": len(base), "n": len(eds), "codes": rle(codes), "hist": hist, "problems": prob,
                     "file": base.hex()}
 
@@ -866,6 +904,8 @@ class Data(CorruptFamily):
             elif "adapter_exception" in o:
                 out.append(("adapter", o["adapter_exception"]))
             else:
+                if o.get("wf"):
+                    out.append(("data:not-well-formed", "edit %r loaded an object violating the table invariant: %s" % (eds[k], o["wf"])))
                 if o.get("rt"):
                     out.append(("data:not-roundtrip", "edit %r loaded but does not round-trip: %s" % (eds[k], o["rt"])))
                 if o.get("valid"):
